@@ -369,6 +369,17 @@ def register(gen, T):
             if not m:
                 raise ExtractError(f"{name}: unexpected body {b!r}")
             infs.append((name, m.group(1), m.group(2)))
+        # the guard of the arms that print a single with the digits of the same value as a double (fix 265a080)
+        m = re.search(r'fn\s+f32_digits_round_twice\s*\(([^)]*)\)\s*->\s*([A-Za-z0-9_]+)', fm)
+        if m:
+            rt_sig = normws(m.group(1)).rstrip(',') + " -> " + m.group(2)
+            rt_body = normws(fn_body(fm, "f32_digits_round_twice"))
+        else:
+            rt_sig, rt_body = "absent", "absent"
+        rt_uses = len(re.findall(r'\bf32_digits_round_twice\s*\(', fm)) - (1 if m else 0)
+        out.append("/-- `f32_digits_round_twice` (the guard of the arms of `format_literal` that print a single with the digits of\n"
+                   "the same value as a double): signature, body, and the number of uses in formatter.rs -/\n")
+        out.append("def f32DigitsRoundTwice : String × String × Nat := (%s, %s, %d)\n\n" % (T.lean_str(rt_sig), T.lean_str(rt_body), rt_uses))
         out.append("/-- `write_infinity_*`: (function, the Metal branch, the HLSL text) -/\n")
         out.append("def writeInfinity : List (String × String × String) := " +
                    T.lean_list("(%s, %s, %s)" % (T.lean_str(a), T.lean_str(b), T.lean_str(c)) for a, b, c in infs) + "\n\n")
